@@ -28,7 +28,7 @@ func init() { props["C17"] = func() hx.Prop { return &c17{} } }
 func (*c17) Rule() string {
 	return "frames: every type 0..255 x declared length vs carried length on a dense grid (0..8 and 4088..4100 exhaustively, random elsewhere), sent over a real unix stream " +
 		"socket to the real readMessage; sendMessage round trips; hand-over sequences of request types (known, unknown, malformed frames, children that disappear) against a real Restarter " +
-		"with a recording Instance. Non-trivial = declared length != carried length, or unknown type, or sequence length >= 2; distinct by op line"
+		"with a recording Instance, every type byte 0..255 as a request. Non-trivial = declared length != carried length, or unknown type, or sequence length >= 2; distinct by op line"
 }
 
 var c17seq int
@@ -270,6 +270,13 @@ func (*c17) Gen(r *hx.Run) {
 			}
 		}
 		r.Do("c17.seq "+strings.Join(chs, ";"), true, "seq")
+	}
+	// every type byte as a request of its own child (replies and out-of-range values are requests nobody defined), and after a known one
+	for t := 0; t < 256; t++ {
+		r.Do(fmt.Sprintf("c17.seq %d", t), true, "seq-every-type")
+		if t%5 == 0 {
+			r.Do(fmt.Sprintf("c17.seq 1,%d,5", t), true, "seq-every-type")
+		}
 	}
 	// the canonical hand-over
 	r.Do("c17.seq 1,5,7", true, "seq-canonical")
